@@ -4,7 +4,7 @@ import signal
 from .. import core, extract
 from ..core import Suite
 
-LEAN_TARGETS = ['Uds.Props.C04', 'Uds.Tie.Groups']
+LEAN_TARGETS = ['Uds.Props.C04', 'Uds.Tie.Groups', 'Uds.Props.C04Unlock']
 ASSUMPTIONS = [
     'the client configuration is itself valid (dtc_snapshot_did_size in 1..8, extended_data_size given and in range, IO / DID entries well formed); user codecs decode any byte string of their length',
     'documented outcomes: a returned response, NegativeResponse / InvalidResponse / UnexpectedResponse / Timeout exceptions, ConfigError, NotImplementedError (fields wider than 64 bits)',
